@@ -228,6 +228,9 @@ def judgeSvc (topics : List String) (lines : Array String) : Verdict := Id.run d
       let keys := keysOf topics ids'
       let bad := keys.filter fun (T, i) => lvOf disk T i != lastLevel ops T i || presentIn disk T i != recordExpected ops T i
       if !bad.isEmpty then return .specfail "disk-tracks-last-non-ok" s!"uninterrupted: {showKeys bad} disk {renderDump disk}"
+      -- without any crash: every live topic shows the last recorded level of every id
+      let badM := keys.filter fun (T, i) => !dormant ops T && lvOf mem T i != lastLevel ops T i
+      if !badM.isEmpty then return .specfail "same-final-state" s!"uninterrupted: memory of {showKeys badM} is not the last recorded level: {renderDump mem}"
       match cmpDumps "uninterrupted" [("mem", mem, dumpOfStore s.mem topics ids'), ("disk", disk, dumpOfStore s.disk topics ids'),
                                       ("told", told, dumpOfTold s.told topics)] with
       | some d => acc := acc.mismatch d
